@@ -212,3 +212,42 @@ def run(ctx):
         for a in field_accesses(prog, FR, fld):
             if a["kind"] in ("assign", "assign_sub", "borrow_mut") and a["func"].root().path != p.path:
                 r3.violation("%s writes %s" % (a["func"].root().path, fld), "skew bookkeeping written outside FdtReceiver::push", loc(a["sp"]))
+
+    # ---- R4 the Expires value the test uses -------------------------------------------------------------------------
+    r4 = ctx.rule("C19.R4", "FdtWriterInner.expires - the instant is_expired compares with - is written only in FdtWriter::complete, from the "
+                            "instance's own Expires attribute: ntp_to_system_time((parse(inst.expires) as u64) << 32) (NTP seconds in the upper "
+                            "half), None when it does not parse (is_expired then answers true); it starts as None", "WWF + value shape")
+    from .. import bits
+    COMPLETE = "<receiver::fdtreceiver::FdtWriter as receiver::writer::ObjectWriter>::complete"
+    cf = prog.fn(COMPLETE)
+    ctx.analysed(cf.path)
+    csl = Slicer(cf.body)
+    for a in field_accesses(prog, FWI, "expires"):
+        caller = a["func"].root().path
+        key = "%s %s FdtWriterInner.expires" % (caller.split("::")[-1], a["kind"])
+        if a["kind"] == "construct":
+            if show(a["value"]).startswith("Option::None"):
+                r4.ok(key, "starts unknown", loc(a["sp"]))
+            else:
+                r4.violation(key, "an FDT receiver starts with a preset expiry %s" % show(a["value"], 40), loc(a["sp"]))
+        elif a["kind"] in ("assign", "assign_sub", "borrow_mut"):
+            if caller != COMPLETE:
+                r4.violation(key, "the expiry instant is written outside FdtWriter::complete", loc(a["sp"]))
+                continue
+            srcs = csl.sources(a["value"])
+            if any(z.endswith("tools::ntp_to_system_time") for z in srcs) and any(re.match(r"var:inst\.expires", z) for z in srcs):
+                r4.ok(key, "<- ntp_to_system_time(.. inst.expires ..)", loc(a["sp"]))
+            else:
+                r4.violation(key, "expires does not derive from the instance's Expires attribute through ntp_to_system_time (sources: %s)" % sorted(
+                    z for z in srcs if z.startswith(("var:", "call:")))[:8], loc(a["sp"]))
+    for s in call_sites(cf, lambda p2, c: p2 == "tools::ntp_to_system_time"):
+        ex = bits.strip(csl.expand(s.expr[2][0]))
+        key = "FdtWriter::complete NTP value of Expires"
+        okv = ex[0] == "bin" and ex[1].startswith("Shl") and show(ex[3]) == "32"
+        inner = bits.strip(ex[2]) if okv else None
+        if okv and re.search(r"parse.*@Ok\.0|seconds_ntp", show(inner, 200)):
+            r4.ok(key, "(seconds as u64) << 32", s.loc)
+        else:
+            r4.violation(key, "Expires is converted as %s; the attribute holds NTP *seconds*, which belong in the upper 32 bits" % show(ex, 100), s.loc)
+    # absent expiry counts as expired (R1 covers the comparison itself)
+    r4.floor(3, "Expires provenance facts")
